@@ -9,7 +9,7 @@
     operation of [FlowSend.apply] — through the very interpreter that is compared with the
     implementation; operations that violate the calling discipline of [Connection] ([adm]) are
     skipped. *)
-From QV Require Import Lib.Tac Lib.Corr Model.FlowSend Proofs.RangeSetProofs Proofs.FlowSendProofs
+From QV Require Import Lib.Tac Lib.Corr Model.FlowSend Proofs.FlowRangeSet Proofs.FlowSendProofs
   Proofs.FlowSendFull gen.Constants.
 Open Scope Z_scope.
 
